@@ -36,11 +36,12 @@ new items it consumes; `(pre.map Op.oLen).sum` is the number of old items consum
     so the CAPTURED ops are exact all the same (`CaptureClock.capture_exact_of_near`).]
  (b) Consumers that position an insertion by its old index [for every Insert `insert co cn l` of `opsR`, `co` is the
     range start plus the number of old items consumed before it: the true old position of the insertion] or
-    compute hunk extents from the first and last op (as the unified-diff header does) [whole-sequence diffs,
-    `os = ns = 0`, as `TextDiff` makes them: for every radius and every non-empty group `g` of
+    compute hunk extents from the first and last op (as the unified-diff header does) [every range start `os`, `ns`:
+    for every radius and every non-empty group `g` of
     `group_diff_ops`, with `f` / `l` its first / last op, the numbers of old- and new-side lines in the group are
     `l.oEnd - f.oStart` and `l.nEnd - f.nStart`, and the old / new indices of its changes are exactly
-    `f.oStart, f.oStart+1, …` resp. `f.nStart, …`: `C05.header_counts_match`] therefore see true coordinates."
+    `f.oStart, f.oStart+1, …` resp. `f.nStart, …`: `C05.header_counts_match`, `UdiffSub.header_counts_sub`]
+    therefore see true coordinates."
 
 What holds for the SHIPPED swap, every algorithm and EVERY clock (no hypothesis beyond in-bounds ranges):
  (c) every index that is NOT a carried index is exact [`Walk`, and unfolded: for `opsS = pre ++ x :: post`, the old
@@ -58,8 +59,7 @@ What holds for the SHIPPED swap, every algorithm and EVERY clock (no hypothesis 
 
 Hypothesis: `RangesInBounds` (ranges not reversed, all element tests on them defined; Myers and LCS need only its
 first three fields, the same-side tests are Patience's).
-Not covered by this theorem: (a) and (b) for the SHIPPED swap — false, (e); hunk extents for sub-range diffs
-(`os, ns ≠ 0`): `group_diff_ops` / the unified-diff renderer are modelled for whole-sequence diffs only; the rendered
+Not covered by this theorem: (a) and (b) for the SHIPPED swap — false, (e); the rendered
 header text itself is C05. -/
 theorem C11_statement (alg : Alg) (E : Env) (os oe ns ne : Nat) (w : World)
     (hr : RangesInBounds E os oe ns ne) :
@@ -75,10 +75,10 @@ theorem C11_statement (alg : Alg) (E : Env) (os oe ns ne : Nat) (w : World)
         -- (b) an insertion positioned by its old index
         (∀ pre co cn l post, opsR = pre ++ .insert co cn l :: post → co = os + (pre.map Op.oLen).sum) ∧
         -- (b) hunk extents from the first and last op
-        (os = 0 → ns = 0 → ∀ (radius : Nat) (g : List Op),
+        (∀ (radius : Nat) (g : List Op),
           g ∈ (groupDiffOps opsR radius).filter (fun g => !g.isEmpty) →
           ∃ f l, g.head? = some f ∧ g.getLast? = some l ∧
-            f.oStart ≤ l.oEnd ∧ l.oEnd ≤ oe ∧ f.nStart ≤ l.nEnd ∧ l.nEnd ≤ ne ∧
+            os ≤ f.oStart ∧ f.oStart ≤ l.oEnd ∧ l.oEnd ≤ oe ∧ ns ≤ f.nStart ∧ f.nStart ≤ l.nEnd ∧ l.nEnd ≤ ne ∧
             (allChanges g).countP isOld = l.oEnd - f.oStart ∧
             (allChanges g).countP isNew = l.nEnd - f.nStart ∧
             (allChanges g).filterMap (·.oldIndex) = List.range' f.oStart (l.oEnd - f.oStart) ∧
@@ -115,8 +115,8 @@ theorem C11_statement (alg : Alg) (E : Env) (os oe ns ne : Nat) (w : World)
     refine ⟨hx, hpos, ?_, ?_⟩
     · intro pre co cn l post h
       exact (hpos pre _ post h).1
-    · rintro rfl rfl radius g hg
-      exact C05.header_counts_match (eqB E) opsR radius oe ne hwR hx g hg
+    · intro radius g hg
+      exact UdiffSub.header_counts_sub (eqB E) opsR radius os ns oe ne hwR hx g hg
   · intro hxR
     constructor
     · intro hxS
